@@ -438,6 +438,8 @@ class Interp(object):
             return self.call_builtin(f.name, args, kwargs)
         if isinstance(f, BoundBuiltin):
             return self.call_bound_builtin(f.obj, f.name, args, kwargs)
+        if isinstance(f, SObj) and self.has_method(f, "__call__"):
+            return self.call_method(f, "__call__", args, kwargs)
         if callable(f) and not isinstance(f, Opaque):
             return f(self, *args, **kwargs)
         raise OutOfReach("call of %r" % (f,))
